@@ -185,6 +185,37 @@ Proof.
   - exists ic, slim, stgt. auto.
 Qed.
 
+(* since the /repo fix of the "sufficient power to move" guard, every ACCEPTED step has adequate traction: the guard refuses
+   exactly the steps whose available tractive force is below the resistance by more than m v / dt *)
+Lemma accepted_step_traction (e : Envr) pts (cl : ConLimr) (s s' : SLStater) ax :
+  sl_solve_step_aux e pts cl s = Ok (s', ax) ->
+  0 < k_dt (ts_k (sl_st s)) -> 0 < mass_compound (ts_p (sl_st s)) ->
+  TractionAdequate (mass_compound (ts_p (sl_st s))) (k_speed (ts_k (sl_st s))) (k_dt (ts_k (sl_st s))) ax.
+Proof.
+  unfold sl_solve_step_aux. intros H Hdt Hmc.
+  binv H sc1 Hu. destruct sc1 as [st1 c1]. cbv beta iota in H.
+  destruct (update_res_frame _ _ _ _ _ _ _ _ Hu) as (Fp & Fw & Ft & Fi & Fo & Fb & Fd & Fl & Foil & Fs & Fsl & Fst & Fdt).
+  ens H. binv H cs Hcs. destruct cs as [[ic slim] stgt]. cbv beta iota in H.
+  ens H. ens H.
+  match goal with E : negb (_ || ?b) = true |- _ => assert (Hg : b = false) by
+    (apply negb_true_iff in E; apply orb_false_iff in E; exact (proj2 E)) end.
+  binv H fc Hfc. destruct fc as [f_consist fbf]. cbv beta iota in H.
+  ens H. ens H. binv H lo Hl. destruct lo as [lnk oil]. cbv beta iota in H.
+  apply ok_pair_inj in H. destruct H as [<- <-].
+  unfold TractionAdequate. cbn [ax_res_net ax_f_pos_max].
+  rewrite Fp, Fs, Fdt in *. numR. apply Rltb_false in Hg.
+  set (dt := k_dt (ts_k (sl_st s))) in *. set (mc := mass_compound (ts_p (sl_st s))) in *.
+  set (v := k_speed (ts_k (sl_st s))) in *.
+  match type of Hg with 0 <= v + dt / mc * (?f - ?r) =>
+    assert (Hq : 0 < dt / mc) by (apply Rdiv_lt_0_compat; assumption);
+    assert (Hm : mc / dt * (dt / mc * (f - r)) = f - r) by (field; split; lra);
+    assert (Hp : 0 < mc / dt) by (apply Rdiv_lt_0_compat; assumption);
+    assert (Hx : 0 <= mc / dt * (v + dt / mc * (f - r))) by (apply Rmult_le_pos; lra);
+    assert (Hy : mc / dt * (v + dt / mc * (f - r)) = mc * v / dt + (f - r)) by (field; split; lra)
+  end.
+  lra.
+Qed.
+
 (* C03 step_speed_le_target: with adequate braking the speed after the step is not above the target *)
 Theorem step_speed_le_target (e : Envr) pts cl (s s' : SLStater) ax :
   sl_solve_step_aux e pts cl s = Ok (s', ax) ->
@@ -236,6 +267,17 @@ Proof.
     assert (dt / mc * (ax_res_net ax - mc * v / dt - ax_res_net ax) = - v) by (field; split; lra).
     lra. }
   split; [|exact Hraw]. destruct Fs as [-> | ->]; lra.
+Qed.
+
+(* THE statement since the fix: an accepted step never ends with a negative speed (non-negative speed before, non-negative
+   target): no hypothesis on the available traction is left *)
+Theorem step_never_reverses (e : Envr) pts cl (s s' : SLStater) ax :
+  sl_solve_step_aux e pts cl s = Ok (s', ax) ->
+  0 < k_dt (ts_k (sl_st s)) -> 0 < mass_compound (ts_p (sl_st s)) ->
+  0 <= k_speed (ts_k (sl_st s)) -> 0 <= k_speed_target (ts_k (sl_st s')) ->
+  0 <= k_speed (ts_k (sl_st s')) /\ 0 <= ax_speed_raw ax.
+Proof.
+  intros H Hdt Hmc Hv Htg. eapply step_speed_nonneg; eauto. eapply accepted_step_traction; eauto.
 Qed.
 
 (* the limit the step reports is the limit of the braking point in force, the speed before the
